@@ -53,6 +53,9 @@ const (
 	plSubmit
 )
 
+// plAccepted is a submission the contract accepted.
+type plAccepted struct{ msg, oid []byte }
+
 var plKindName = []string{"addNextEpochNodes", "commitContainerListUpdate", "verifyPlacementSignatures", "submitObjectPut"}
 
 const (
@@ -260,6 +263,7 @@ type plEngine struct {
 	stranger *keys.PrivateKey
 	big      bool
 	nSubmit  int
+	lastOK   map[int]*plAccepted // per container: the last accepted submission
 }
 
 func TestPlacement(t *testing.T) { Sim(t, plBody) }
@@ -268,7 +272,7 @@ func init() { RegisterEngine("placement", []string{"C14"}, plBody) }
 
 // plBody is the engine body (one simulated run).
 func plBody(r *Run) {
-	e := &plEngine{r: r}
+	e := &plEngine{r: r, lastOK: map[int]*plAccepted{}}
 	e.run()
 }
 
@@ -808,6 +812,15 @@ func (e *plEngine) build(op plOp) *plTx {
 			must(err)
 		}
 		bt.msg = raw
+		if la := e.lastOK[op.Cont]; la != nil && op.Meta == 0 && (op.Msg+op.Dt)%3 == 0 {
+			// order of two parties: the very bytes of a submission accepted
+			// earlier are submitted again, with whatever signatures are drawn now
+			// (often defective) and against the roster as it is now
+			bt.msg, bt.oid = la.msg, la.oid
+			e.r.Inject("replay.resubmit")
+			e.r.Fired("replay.resubmit")
+			e.r.Count("probe.accepted_meta_submitted_again")
+		}
 		var mf string
 		bt.matrix, mf = e.buildMatrix(op, ro, bt.msg)
 		fault = orStr(fault, mf)
@@ -1047,6 +1060,10 @@ func (e *plEngine) block(pending []*plTx, dt uint64) {
 					r.Violation("C14/objectput-notification", "", "%s: %d ObjectPut notifications", bt.desc, n)
 				}
 				r.Changed()
+				if bt.metaBad == "" && bt.cont >= 0 {
+					// what was accepted once may be submitted again (by anybody)
+					e.lastOK[bt.op.Cont] = &plAccepted{msg: bt.msg, oid: bt.oid}
+				}
 			}
 			if honest {
 				r.Count("probe.honest_matrix")
